@@ -52,14 +52,19 @@ def is_csi(result, params, final):
 # an alias so that both coexist: `alias` contracts are verified like any other but not used at call sites.)
 @contract(ES + "set_cursor_position", property="C04", alias="format")
 class set_cursor_position:
-    params = dict(x=Int, y=Int)
-    raises = ()
+    params = dict(x=Union(Int, Const(1.5)), y=Union(Int, Const(1.5)))  # 1.5: a representative of "not an int"
+    raises = (TypeError,)
 
     def requires(a):
         return both(0 <= a.x, 0 <= a.y)
 
     def ensures(a, result):
-        yield "CUP-with-one-based-row-then-column", is_csi(result, (a.y + 1, a.x + 1), "H")
+        yield "only-ints-are-formatted", not isinstance(a.x, float) and not isinstance(a.y, float)
+        if not isinstance(a.x, float) and not isinstance(a.y, float):
+            yield "CUP-with-one-based-row-then-column", is_csi(result, (a.y + 1, a.x + 1), "H")
+
+    def on_raise(a, exc):
+        yield "TypeError-only-for-a-coordinate-that-is-not-an-int", isinstance(a.x, float) or isinstance(a.y, float)
 
 
 def _move(final):
@@ -496,6 +501,8 @@ class last_row:
         if ins is None:
             return
         yield "at-least-the-last-cell-is-drawn-first", m >= 1
+        if isinstance(m, int) and m < 1:
+            return
         z = Q.seq_get(out, m - 1)
         yield "last-piece-drawn-is-exactly-one-cell", one_cell(z[2])
         yield "back-is-the-width-of-the-cell-moved", both(back == TW(z[2], tlen(z[2])), back == cw(z[2], 0), 1 <= back, back <= 2)
